@@ -124,7 +124,11 @@ def install(imps, store, g, rng, ndecoy, stitch=False):
                 imp.storage.add_graph('refused', bad)
             except Exception:
                 REFUSED[0] += 1
-    imp.storage.add_graph('target', rawgraph.to_nx(g.desc(), key_style=rng.randrange(3)))
+    # the same graph id is used again and again with the nodes arriving in another order (so the same NodeID sits at another
+    # internal position each time): nothing remembered about an earlier graph of that id may leak into the queries
+    desc = g.desc()
+    desc = dict(desc, nodes=rng.sample(desc['nodes'], len(desc['nodes'])))
+    imp.storage.add_graph('target', rawgraph.to_nx(desc, key_style=rng.randrange(3)))
     if ndecoy:
         imp.storage.add_graph('decoy-after', rawgraph.to_nx(G(g.ids, g.cls, {}).desc(), key_style=0))
     pg = cls(graph_id='target', importer=imp)
